@@ -298,6 +298,7 @@ def build_session(reg):
     reg.shape("Pattern", cls="autobahn.wamp.uri:Pattern", fields={"_uri": "str"})
     reg.external("call:int", c18.ext_construct)
     reg.shape("RegExc", fields={"__class__": "int", "ctor_args": "any", "ctor_kwargs": "any"})
+    reg.shapes["RegExc"].open_attrs = True      # an instance of a user's exception class: any further attribute may exist
     reg.inline.add("autobahn.wamp.exception:ApplicationError.__init__")
     reg.native_spec("same_seq", lambda ex, state, a, b: VBool(c18._seq_of(ex, state, a) == c18._seq_of(ex, state, b)))
     # ---- an encrypted ERROR on the caller side: only an ERROR that decrypts under the caller's (originator) box and
@@ -549,7 +550,42 @@ for uri, args, kwargs in (("com.x", [1, "two"], {"k": 3}), ("com.y.z", None, Non
         pass
 if orig.encode(True, "org.uncovered", [1], None) is not None:
     bad.append({"what": "payload sealed although no key covers the URI"})
-print(json.dumps({"bad": bad}))
+# key provisioning histories: the key looked up is the one stored *now* under the longest stored prefix of the URI --
+# whatever was looked up before a key was set, replaced or set for a longer / shorter prefix
+d_priv, d_pub = kr0.generate_key(); e_priv, e_pub = kr0.generate_key()
+K1 = (CB.Key(originator_priv=a_priv, responder_pub=b_pub), CB.Key(originator_pub=a_pub, responder_priv=b_priv))
+K2 = (CB.Key(originator_priv=d_priv, responder_pub=e_pub), CB.Key(originator_pub=d_pub, responder_priv=e_priv))
+def opens(rkey, prefix, uri, ep):
+    r = CB.KeyRing(); r.set_key(prefix, rkey)
+    try:
+        return r.decode(False, uri, ep) == (uri, [1, "two"], {"k": 3})
+    except Exception:
+        return False
+URIS = ("com.myapp.topic1", "com.myapp.proc1", "com.other")
+for first_use in (True, False):
+    for steps in ([("com.myapp.", K1)], [("com.", K1), ("com.myapp.", K2)], [("com.myapp.", K1), ("com.myapp.", K2)],
+                  [("com.myapp.topic1", K1), ("com.", K2)], [("", K1), ("com.myapp.", K2)]):
+        ring = CB.KeyRing()
+        stored = {}
+        if first_use:
+            for u in URIS:
+                if ring.encode(True, u, [1, "two"], {"k": 3}) is not None:
+                    bad.append({"what": "payload sealed by an empty keyring", "uri": u})
+        for prefix, pair in steps:
+            ring.set_key(prefix, pair[0]); stored[prefix] = pair
+            for u in URIS:
+                cover = [p for p in stored if u.startswith(p)]
+                ep = ring.encode(True, u, [1, "two"], {"k": 3})
+                case = {"used_before_keys_were_set": first_use, "set_key": [p for p, _ in steps[:steps.index((prefix, pair)) + 1]], "uri": u}
+                if not cover:
+                    if ep is not None: bad.append(dict(case, what="payload sealed although no stored prefix covers the URI"))
+                    continue
+                want = stored[max(cover, key=len)]
+                if ep is None:
+                    bad.append(dict(case, what="payload NOT sealed (travels in the clear) although a key covers the URI")); continue
+                if not opens(want[1], max(cover, key=len), u, ep):
+                    bad.append(dict(case, what="sealed with a key other than the one stored under the longest matching prefix"))
+print(json.dumps({"bad": bad[:6]}))
 '''
 
 
